@@ -94,8 +94,8 @@ PROPS["C15"] = {"units": ["nav"], "kani": [], "replay": ["bounded"], "engine": "
     "level_note": "bounded exploration, not a proof; oracle = native multiset matching in replay/src/checks_object.rs",
     "technique": "bounded exhaustive comparison with a reference definition (stand-in: the Vec / Object comparisons are closure chains outside the verifier); the value-level dispatcher alone is under contract (Verus)", "design_ref": "DESIGN.md §6.7"}
 PROPS["C09"] = {"units": ["object", "print", "nav"], "kani": [], "replay": ["bounded"], "title": "Canonicalization conforms to RFC 8785", "level": "proof",
-    "level_text": "Proved: Object::sort re-establishes the index invariant and orders entries by the comparator it is given (permutation preserved); string_literal emits exactly the RFC 8785 minimal escaping; Value::canonicalize_with (unit nav, with termination) replaces every number at every depth of nested arrays by its canonical spelling (json-number, by contract), hands every object to Object::canonicalize_with and changes nothing else; Object::canonicalize_with (unit object) canonicalizes every member value first, then sorts -- the result is a permutation (duplicates kept) of the old members with canonicalized values, ordered by key under the comparator's key order -- and rebuilds the index (wf). The UTF-16 comparison itself (the comparator closure over encode_utf16 iterators) is modelled (R12) and decided by the bounded stand-in, as are the number renderings. The UTF-16 member order and the ES6 number rendering are decided only by the bounded stand-in (keys separating UTF-16 from code-point order, the RFC 8785 number table).",
-    "level_note": "number clause = dependency behaviour (json-number/ryu-js), assumed (canon_num uninterpreted); R12 in Object::canonicalize_with: `self.iter_mut()` (custom adapter whose closure hands out `&mut` borrows) is replaced by an assumed stub yielding every entry's key and mutable value in order, and the comparator body (`encode_utf16` iterator comparison + `then_with` closure) by an assumed stub returning canon_entry_cmp with `the keys decide first`; Value- and Object-level contracts refer to each other through uninterpreted relations (each proved in its own unit; termination of the mutual recursion is proved on the Value side only); `for item in a` over &mut Vec uses an assumed std contract (IntoIterator for &mut Vec)" + _BOUNDED_NOTE,
+    "level_text": "Proved: Object::sort re-establishes the index invariant and orders entries by the comparator it is given (permutation preserved); string_literal emits exactly the RFC 8785 minimal escaping; Value::canonicalize_with (unit nav, with termination) replaces every number at every depth of nested arrays by the ECMAScript rendering (ryu-js, by contract) of the double nearest to its decimal value (std's correctly rounded parse, by contract), hands every object to Object::canonicalize_with and changes nothing else; Object::canonicalize_with (unit object) canonicalizes every member value first, then sorts -- the result is a permutation (duplicates kept) of the old members with canonicalized values, ordered by key under the comparator's key order -- and rebuilds the index (wf). The UTF-16 comparison itself (the comparator closure over encode_utf16 iterators) is modelled (R12) and decided by the bounded stand-in, as are the number renderings. The UTF-16 member order and the ES6 number rendering are decided only by the bounded stand-in (keys separating UTF-16 from code-point order, the RFC 8785 number table).",
+    "level_note": "number clause: decimal -> nearest double (std `str::parse::<f64>`) and double -> text (ryu-js `format_finite`) are dependency behaviour, uninterpreted (nearest_double, es_render); the code is verified to combine them; the bounded stand-in compares with an ECMAScript reference over correctly rounded doubles (12,000 long decimals, halfway points); R12 in Object::canonicalize_with: `self.iter_mut()` (custom adapter whose closure hands out `&mut` borrows) is replaced by an assumed stub yielding every entry's key and mutable value in order, and the comparator body (`encode_utf16` iterator comparison + `then_with` closure) by an assumed stub returning canon_entry_cmp with `the keys decide first`; Value- and Object-level contracts refer to each other through uninterpreted relations (each proved in its own unit; termination of the mutual recursion is proved on the Value side only); `for item in a` over &mut Vec uses an assumed std contract (IntoIterator for &mut Vec)" + _BOUNDED_NOTE,
     "design_ref": "DESIGN.md §6.4"}
 PROPS["C10"] = {"units": ["object", "nav"], "kani": [], "replay": ["bounded"], "title": "Canonical form is idempotent, blind to member order", "level": "proof",
     "level_text": "Proved: after the index rebuild used by sort/canonicalization the object is well formed again (every key query answers as a linear scan would); Value::canonicalize_with (unit nav, with termination) changes nothing but number spellings and objects: kinds, booleans, strings, nulls, array lengths and item order are preserved, every array item is visited (canon_rel); Object::canonicalize_with (unit object) keeps every member (same keys, canonicalized values, duplicates kept), only reorders them, and leaves the object well formed -- fully queryable by key. Idempotence and blindness to member order, spacing and number spelling are decided by the bounded stand-in.",
